@@ -1,4 +1,4 @@
-(* Parameters by name, and their position in p_val / p_cov.  The position formulas are the documented layout; Proofs/LayoutP
+(* Calibration unknowns by name, and their position in p_val / p_cov.  The position formulas are the documented layout; Proofs/LayoutP
    shows that the index lists regenerated from the source (Gen/GenLayout.v) are exactly these positions. *)
 From Coq Require Import List ZArith Bool Arith.
 Import ListNotations.
